@@ -72,6 +72,30 @@ where
     pub(crate) fn mark_completed(&self) {
         self.completed.store(true, atomic::Ordering::SeqCst);
     }
+
+    /// Returns a guard which marks the iteration as completed unless it is disarmed;
+    /// it is dropped armed only when the wrapped iterator panics while the calling thread is responsible of yielding.
+    #[inline(always)]
+    pub(crate) fn complete_on_unwind(&self) -> CompleteOnUnwind<'_> {
+        CompleteOnUnwind(&self.completed)
+    }
+}
+
+/// Marks the iteration as completed when dropped, so that the threads waiting for their turn are released.
+pub(crate) struct CompleteOnUnwind<'a>(&'a AtomicBool);
+
+impl CompleteOnUnwind<'_> {
+    /// The wrapped iterator returned without panicking: nothing to do.
+    #[inline(always)]
+    pub(crate) fn disarm(self) {
+        std::mem::forget(self)
+    }
+}
+
+impl Drop for CompleteOnUnwind<'_> {
+    fn drop(&mut self) {
+        self.0.store(true, atomic::Ordering::SeqCst);
+    }
 }
 
 impl<T: Send + Sync, Iter> From<Iter> for ConIterOfIter<T, Iter>
@@ -128,8 +152,10 @@ where
                     if self.completed.load(atomic::Ordering::SeqCst) {
                         return None;
                     }
+                    let guard = self.complete_on_unwind();
                     // SAFETY: no other thread has the valid condition to iterate, they are waiting
                     let next = unsafe { self.mut_iter() }.next();
+                    guard.disarm();
                     match next.is_some() {
                         true => {
                             _ = self.yielded_counter.fetch_and_increment();
@@ -153,6 +179,7 @@ where
 
     fn fetch_n(&self, n: usize) -> Option<NextChunk<T, impl ExactSizeIterator<Item = T>>> {
         self.progress_and_get_begin_idx(n).and_then(|begin_idx| {
+            let guard = self.complete_on_unwind();
             // SAFETY: no other thread has the valid condition to iterate, they are waiting
             let iter = unsafe { self.mut_iter() };
             let end_idx = begin_idx + n;
@@ -161,6 +188,7 @@ where
                 .take_while(|x| x.is_some())
                 .map(|x| x.expect("is_some is checked"))
                 .collect::<Vec<_>>();
+            guard.disarm();
 
             match buffer.len() {
                 0 => {
